@@ -4,7 +4,7 @@ import argparse, concurrent.futures as cf, hashlib, json, os, re, shutil, subpro
 VERIF = os.path.dirname(os.path.dirname(os.path.abspath(__file__)))
 SPEC = os.path.join(VERIF, "spec")
 HARNESS = os.path.join(VERIF, "harness")
-REPO = "/repo"
+REPO = os.environ.get("VERIF_REPO", "/repo")   # the tree under test (a snapshot for background runs)
 NCPU = os.cpu_count() or 8
 
 GOENV = dict(os.environ, GOFLAGS="-mod=mod", GOPROXY="off", GOSUMDB="off", GOTOOLCHAIN="local",
@@ -22,13 +22,21 @@ def log(*a):
 # ----------------------------------------------------------------------------
 # building the harness against /repo's current working tree
 def build_harness(tmp, race=False):
-    shutil.copy(os.path.join(REPO, "go.sum"), os.path.join(HARNESS, "go.sum"))
+    hdir = HARNESS
+    if REPO != "/repo":
+        # background runs on a snapshot: same harness sources, module replaced by the snapshot
+        hdir = os.path.join(tmp, "harness_src")
+        if not os.path.exists(hdir):
+            shutil.copytree(HARNESS, hdir)
+            gm = open(os.path.join(hdir, "go.mod")).read().replace("=> /repo", "=> " + REPO)
+            open(os.path.join(hdir, "go.mod"), "w").write(gm)
+    shutil.copy(os.path.join(REPO, "go.sum"), os.path.join(hdir, "go.sum"))
     out = os.path.join(tmp, "hx-race" if race else "hx")
     cmd = ["go", "build", "-tags", "verif", "-o", out]
     if race:
         cmd.append("-race")
     cmd.append("./cmd/hx")
-    p = subprocess.run(cmd, cwd=HARNESS, env=GOENV, capture_output=True, text=True)
+    p = subprocess.run(cmd, cwd=hdir, env=GOENV, capture_output=True, text=True)
     if p.returncode != 0:
         raise Infra("harness build failed:\n" + p.stdout + p.stderr)
     return out
